@@ -179,4 +179,10 @@ scen("C01", "hard-error-at-every-stage", "<p>hello <b>world</b></p>" * 300, cfg(
       one("OneShotLines", 40, plan(err_at=[0, "WouldBlock"])),
       one("OneShotString", 40, plan([{"Data": 1}], err_at=[7800, "TimedOut"]))],
      note="boundary case: hard errors instead of data, at the buffer boundary and instead of EOF")
+scen("C01", "selector-descendant-child-alternation-quartic", nest("<span>", 480, inner="x"),
+     cfg("Plain", css=[{"agent": False, "text": "q>" + "span span>" * 150 + "span{color:red;}"}]), [one("OneShotString", 80)],
+     note="fixed b1279c8: the matcher stepped over every already tried ancestor one at a time (elements x steps x depth^2 = 1.6e10 here); reported by a code-reading sub-agent (hunt-k), the generated workload reaches the shape but not this scale")
+scen("C01", "specificity-per-declaration-cubic", "<p>" * 2000,
+     cfg("PlainNoDecorate", css=[{"agent": False, "text": "*" * 6000 + "{" + "color:red;" * 600 + "}"}]), [one("OneShotString", 80)],
+     note="fixed 0b1ebce: the rule's specificity (a walk over 6000 components) was recomputed for each of 600 declarations on each of 2000 elements (7e9 steps); reported by a code-reading sub-agent (hunt-k)")
 print("corpus written")
